@@ -93,6 +93,22 @@ def shapes(tier, seed):
     ok('C:disallowed-pair-falls-to-next-variant', cfg3(),
        {'mnemonic': 'mv', 'variant': 1, 'text': 'mv ra, ra', 'uses': [{'spec': 'aa', 'id': 'x'}, {'spec': 'aa', 'id': 'y'}]})
     rej('C:disallowed-pair-without-alternative', cfg3(), 'mv rb, rb')
+    # a disallowed combination is an ordered tuple: its mirror image / permutations stay allowed
+    insA = {'mv': {'bytecode': code('op_a', 6), 'operands': {'count': 2, 'operand_sets': {
+        'list': ['regs', 'regs'], 'disallowed_pairs': [['ra', 'rb']]}},
+        'variants': [{'bytecode': code('op_b', 6), 'operands': {'count': 2, 'operand_sets': {'list': ['regs', 'regs']}}}]},
+        'm3': {'bytecode': code('op_c', 7), 'operands': {'count': 3, 'operand_sets': {
+            'list': ['regs', 'regs', 'regs'], 'disallowed_pairs': [['ra', 'ra', 'rb']]}}}}
+    cfgA = lambda: isa(operand_sets=osets, instructions=insA)  # noqa
+    U = lambda a, b: [{'set': 'regs', 'id': a}, {'set': 'regs', 'id': b}]  # noqa
+    ok('C:listed-order-is-disallowed-falls-to-variant', cfgA(), {'mnemonic': 'mv', 'variant': 1, 'text': 'mv ra, rb', 'uses': U('ra', 'rb')})
+    ok('C:mirrored-order-stays-allowed', cfgA(), {'mnemonic': 'mv', 'variant': 0, 'text': 'mv rb, ra', 'uses': U('rb', 'ra')})
+    ok('C:same-register-twice-stays-allowed', cfgA(), {'mnemonic': 'mv', 'variant': 0, 'text': 'mv ra, ra', 'uses': U('ra', 'ra')})
+    ok('C:permutation-of-triple-stays-allowed', cfgA(), {'mnemonic': 'm3', 'variant': 0, 'text': 'm3 ra, rb, rb', 'uses': [
+        {'set': 'regs', 'id': 'ra'}, {'set': 'regs', 'id': 'rb'}, {'set': 'regs', 'id': 'rb'}]})
+    ok('C:other-permutation-of-triple-stays-allowed', cfgA(), {'mnemonic': 'm3', 'variant': 0, 'text': 'm3 rb, ra, ra', 'uses': [
+        {'set': 'regs', 'id': 'rb'}, {'set': 'regs', 'id': 'ra'}, {'set': 'regs', 'id': 'ra'}]})
+    rej('C:listed-triple-is-disallowed', cfgA(), 'm3 ra, ra, rb')
 
     # D: order inside an operand set -------------------------------------------------------------------------------
     osetsD = {'any': {'operand_values': {
